@@ -116,6 +116,7 @@ struct Session
     ImporterPtr I[2];
     PrinterPtr PR;
     AnnotatorPtr AN;
+    GeneratorPtr G;
     std::string dir;
 };
 
@@ -190,11 +191,29 @@ static void services(const J &sc, Emitter &out)
             auto t = s.am ? s.am->type() : AnalyserModel::Type::UNKNOWN;
             fail = t == AnalyserModel::Type::INVALID || t == AnalyserModel::Type::UNDERCONSTRAINED || t == AnalyserModel::Type::OVERCONSTRAINED || t == AnalyserModel::Type::UNSUITABLY_CONSTRAINED;
             lg = a;
-        } else if (op == "generate") {
-            auto g = Generator::create();
-            if (c["profile"].str("c") == "py") {
-                g->setProfile(GeneratorProfile::create(GeneratorProfile::Profile::PYTHON));
+        } else if (op == "edit") {
+            // a documented modification of the current model (like assignIds): in component c the variable k is taken out,
+            // a new constant a0 is added and k put back after it (so that k's position changes while the Variable object stays
+            // the same), and the equation becomes dx/dt = a0 * k * 3
+            bool done = false;
+            if (s.m && s.m->component("c") && s.m->component("c")->variable("k") && !s.m->component("c")->variable("a0")) {
+                auto comp = s.m->component("c");
+                auto k = comp->takeVariable("k");
+                auto a0 = Variable::create("a0");
+                a0->setUnits("dimensionless");
+                a0->setInitialValue("5");
+                comp->addVariable(a0);
+                comp->addVariable(k);
+                comp->setMath("<math xmlns=\"http://www.w3.org/1998/Math/MathML\" xmlns:cellml=\"http://www.cellml.org/cellml/2.0#\"><apply><eq/><apply><diff/><bvar><ci>t</ci></bvar><ci>x</ci></apply>"
+                              "<apply><times/><ci>a0</ci><ci>k</ci><cn cellml:units=\"per_s\">3</cn></apply></apply></math>");
+                done = true;
             }
+            key += "|" + inBefore;
+            res = std::string(done ? "edited" : "nothing") + "/" + modelDigest(s.m);
+            inBefore = modelDigest(s.m); // this call is meant to modify the model
+        } else if (op == "generate") {
+            GeneratorPtr g = fresh ? Generator::create() : (s.G ? s.G : (s.G = Generator::create()));
+            g->setProfile(GeneratorProfile::create(c["profile"].str("c") == "py" ? GeneratorProfile::Profile::PYTHON : GeneratorProfile::Profile::C));
             g->setModel(s.am);
             key += "|" + c["profile"].str("c") + "|" + s.amSource + "|" + amDigest(s.am);
             res = sha1ish(g->interfaceCode() + "####" + g->implementationCode());
